@@ -252,52 +252,72 @@ theorem recover_cases (ht : 0 < t) (sigs : List Bytes) :
   refine ⟨acc, e1, e2, ?_⟩
   rw [e3, members_uniq]; simp
 
+/-- the guard of /repo 3cdfff8: a threshold below the number of coefficients is refused before
+anything else happens -/
+theorem recover_guard (sigs : List Bytes) (hlt : t < pub.length) :
+    recover cd pub hm sigs t n = .errThreshold := by
+  unfold recover; simp [hlt]
+
+/-- **the complete outcome of `Recover`**, no hypothesis on the public polynomial -/
+theorem recover_eq_full (ht : 0 < t) (hc : CharGt F n) (sigs : List Bytes) :
+    recover cd pub hm sigs t n
+      = if t < pub.length then .errThreshold
+        else if t ≤ (members cd pub hm n sigs).card then .ok (cd.encode (pub.headD 0 • hm))
+        else .errFew := by
+  by_cases hlt : t < pub.length
+  · rw [recover_guard cd pub hm t n sigs hlt, if_pos hlt]
+  · have hf : pub.length ≤ t := Nat.le_of_not_lt hlt
+    obtain ⟨acc, e1, hok, hlen⟩ := recover_cases cd pub hm t n ht sigs
+    unfold recover
+    rw [e1]
+    simp only [hlt, if_false]
+    have hu := usable_of_accOK pub hm n acc hok
+    have hdist : (((acc.map some).filterMap (usablePub n)).map (·.1)).Nodup := by
+      rw [hu, List.map_map]; exact hok.nodup
+    have hval : ∀ iv ∈ (acc.map some).filterMap (usablePub n), iv.2 = priEval pub iv.1 • hm := by
+      intro iv hiv
+      rw [hu] at hiv
+      obtain ⟨s, _, rfl⟩ := List.mem_map.1 hiv
+      rfl
+    have hl : (idxPub n (acc.map some)).card = acc.length := by
+      rw [idxPub_card_of_nodup n _ hdist, hu]; simp
+    by_cases hq : t ≤ (members cd pub hm n sigs).card
+    · simp only [hq, if_true]
+      rw [recoverCommit_ok true pub hm t n hf hc _ hval (by rw [hl, hlen]; omega)]
+    · simp only [hq, if_false]
+      rw [recoverCommit_few true t n _ (by rw [hl, hlen]; omega)]
+
 theorem recover_eq (ht : 0 < t) (hf : pub.length ≤ t) (hc : CharGt F n) (sigs : List Bytes) :
     recover cd pub hm sigs t n
       = if t ≤ (members cd pub hm n sigs).card then .ok (cd.encode (pub.headD 0 • hm)) else .errFew := by
-  obtain ⟨acc, e1, hok, hlen⟩ := recover_cases cd pub hm t n ht sigs
-  unfold recover
-  rw [e1]
-  simp only
-  have hu := usable_of_accOK pub hm n acc hok
-  have hdist : (((acc.map some).filterMap (usablePub n)).map (·.1)).Nodup := by
-    rw [hu, List.map_map]; exact hok.nodup
-  have hval : ∀ iv ∈ (acc.map some).filterMap (usablePub n), iv.2 = priEval pub iv.1 • hm := by
-    intro iv hiv
-    rw [hu] at hiv
-    obtain ⟨s, _, rfl⟩ := List.mem_map.1 hiv
-    rfl
-  have hl : ((acc.map some).filterMap (usablePub n)).length = acc.length := by rw [hu]; simp
-  by_cases hq : t ≤ (members cd pub hm n sigs).card
-  · simp only [hq, if_true]
-    rw [recoverCommit_ok true pub hm t n hf hc _ hval (by rw [hl, hlen]; omega) hdist]
-  · simp only [hq, if_false]
-    rw [recoverCommit_few true t n _ (by rw [hl, hlen]; omega)]
+  rw [recover_eq_full cd pub hm t n ht hc sigs, if_neg (Nat.not_lt.2 hf)]
 
 /-- never a panic, for ANY public polynomial and any entries -/
 theorem recover_total (ht : 0 < t) (hc : CharGt F n) (sigs : List Bytes) :
-    recover cd pub hm sigs t n = .errFew ∨ ∃ s, recover cd pub hm sigs t n = .ok s := by
-  obtain ⟨acc, e1, hok, _⟩ := recover_cases cd pub hm t n ht sigs
-  unfold recover
-  rw [e1]
-  simp only
-  have hu := usable_of_accOK pub hm n acc hok
-  have hdist : (((acc.map some).filterMap (usablePub n)).map (·.1)).Nodup := by
-    rw [hu, List.map_map]; exact hok.nodup
-  rcases recoverCommit_no_panic (F := F) true t n hc (acc.map some) hdist with h | ⟨c, h⟩
-  · left; rw [h]
-  · right; rw [h]; exact ⟨_, rfl⟩
+    recover cd pub hm sigs t n = .errFew ∨ recover cd pub hm sigs t n = .errThreshold
+      ∨ ∃ s, recover cd pub hm sigs t n = .ok s := by
+  rw [recover_eq_full cd pub hm t n ht hc sigs]
+  split_ifs
+  · exact Or.inr (Or.inl rfl)
+  · exact Or.inr (Or.inr ⟨_, rfl⟩)
+  · exact Or.inl rfl
 
 /-- fewer than `t` members with a valid share: an error, for ANY public polynomial -/
 theorem recover_few (ht : 0 < t) (sigs : List Bytes)
-    (hfew : (members cd pub hm n sigs).card < t) : recover cd pub hm sigs t n = .errFew := by
-  obtain ⟨acc, e1, hok, hlen⟩ := recover_cases cd pub hm t n ht sigs
-  unfold recover
-  rw [e1]
-  simp only
-  have hu := usable_of_accOK pub hm n acc hok
-  have hl : ((acc.map some).filterMap (usablePub n)).length = acc.length := by rw [hu]; simp
-  rw [recoverCommit_few true t n _ (by rw [hl, hlen]; omega)]
+    (hfew : (members cd pub hm n sigs).card < t) :
+    recover cd pub hm sigs t n = if t < pub.length then .errThreshold else .errFew := by
+  by_cases hlt : t < pub.length
+  · rw [recover_guard cd pub hm t n sigs hlt, if_pos hlt]
+  · obtain ⟨acc, e1, hok, hlen⟩ := recover_cases cd pub hm t n ht sigs
+    unfold recover
+    rw [e1]
+    simp only [hlt, if_false]
+    have hu := usable_of_accOK pub hm n acc hok
+    have hdist : (((acc.map some).filterMap (usablePub n)).map (·.1)).Nodup := by
+      rw [hu, List.map_map]; exact hok.nodup
+    have hl : (idxPub n (acc.map some)).card = acc.length := by
+      rw [idxPub_card_of_nodup n _ hdist, hu]; simp
+    rw [recoverCommit_few (F := F) true t n _ (by rw [hl, hlen]; omega)]
 
 theorem validIdx_eq_some_iff (e : Bytes) (i : Nat) :
     validIdx cd pub hm n e = some i
